@@ -11,7 +11,8 @@ SPEC = {
     'assumptions': ['CPython randomises only str/bytes hashes (PYTHONHASHSEED)'],
     'deductive': [
         ('K-update(ties keep the stored entry)', 'update', '^update:returns-replaced'),
-        ('K-prune(tie extension)', 'prune', 'prune:(all-ties|only-ties|dropped-are|kept-is|no-postponed)')],
+        ('K-prune(tie extension)', 'prune', 'prune:(all-ties|only-ties|dropped-are|kept-is|no-postponed)'),
+        ("_build_node_path(choice is a function of the listing order: first of equals)", 'final_choice', r'first')],
     'bounded': [
         ('map-order-permutations', suites.case_C10, 1500, 25000, RULE + '; ' + 'non-trivial = >= 3 nodes or an exact tie in some column', '')],
 }
